@@ -749,16 +749,22 @@ Definition remembered_ok (c : cfg) (p : N) (a : maddr) : Prop :=
   last a (Other 0) = P2p p /\ enabled c (route c a) = true /\
   exists ho port, parse (route c a) a = Some (ho, port, Some p).
 
+Lemma own_listen_false c ls a :
+  own_listen c ls a = false ->
+  existsb (maddr_eqb a) (listen_set c ls) = false /\
+  existsb (maddr_eqb (strip_p2p a)) (listen_set c ls) = false.
+Proof. unfold own_listen. intro H. apply orb_false_iff in H. exact H. Qed.
+
 Lemma dial_addr_ok_spec c st a t q :
   dial_addr_check c st a = DAOk t q ->
   free_capacity c st 0 <> None /\
-  existsb (maddr_eqb a) (listen_set c (lst st)) = false /\
+  own_listen c (lst st) a = false /\
   route c a = t /\ remembered_ok c q a.
 Proof.
   unfold dial_addr_check, remembered_ok.
   destruct (free_capacity c st 0) as [lim|]; [|discriminate].
   destruct (last a (Other 0)) eqn:Hl; try discriminate.
-  destruct (existsb (maddr_eqb a) (listen_set c (lst st))) eqn:Hself; [discriminate|].
+  destruct (own_listen c (lst st) a) eqn:Hself; [discriminate|].
   destruct a as [|h rest]; [discriminate|].
   destruct (is_host h) eqn:Hh; [|discriminate].
   destruct (is_host_not _ Hh) as [Hq Hw]. destruct (is_host_host _ Hh) as [ho Hho].
@@ -819,7 +825,7 @@ Proof. destruct h; cbn; intro H; try discriminate H; reflexivity. Qed.
 
 Lemma supported_dial_addr c st a :
   supported c a = true -> free_capacity c st 0 <> None ->
-  existsb (maddr_eqb a) (listen_set c (lst st)) = false ->
+  own_listen c (lst st) a = false ->
   exists q, last a (Other 0) = P2p q /\ dial_addr_check c st a = DAOk (route c a) q.
 Proof.
   intros Hs Hc Hself. destruct (supported_dialable _ _ Hs) as [q [Hl [He _]]].
@@ -863,7 +869,7 @@ Section BookInv.
   (* what the user may hand to dial_address *)
   Variable dial_wf : maddr -> Prop.
   Hypothesis P_add : forall ls p a, incl L0 ls -> acceptable c ls p a -> P p a.
-  Hypothesis P_dial : forall st a t q, dial_wf a -> dial_addr_check c st a = DAOk t q -> P q a.
+  Hypothesis P_dial : forall st a t q, incl L0 (lst st) -> dial_wf a -> dial_addr_check c st a = DAOk t q -> P q a.
 
   Definition BInv (b : book) : Prop := forall p s, get p b = Some s -> SInv (P p) k s.
   Definition StInv (st : state) : Prop := incl L0 (lst st) /\ BInv (bk st).
@@ -969,7 +975,7 @@ Section BookInv.
       cbn [fst set_bk lst bk] in *. split; [exact Hl|]. apply binv_put; assumption.
     - cbn [op_wf] in Hwf.
       destruct (dial_addr_check c st a) as [| | | |t q] eqn:Hd; try (split; assumption).
-      pose proof (P_dial st a t q Hwf Hd) as Pa.
+      pose proof (P_dial st a t q Hl Hwf Hd) as Pa.
       pose proof (insert_inv (P q) k (get_or_empty q (bk st)) a 0 (hd_error victims)
                     (binv_get_or_empty (bk st) q Hb) Pa) as H1.
       destruct (insert k (get_or_empty q (bk st)) a 0 (hd_error victims)) as [s1 r1].
@@ -1019,12 +1025,12 @@ Definition op_ok (c : cfg) (L0 : list maddr) : op -> Prop :=
 
 Lemma acceptable_hyps c L0 :
   (forall ls p a, incl L0 ls -> acceptable c ls p a -> acceptable c L0 p a) /\
-  (forall st a t q, dial_acceptable c L0 a -> dial_addr_check c st a = DAOk t q -> acceptable c L0 q a).
+  (forall st a t q, incl L0 (lst st) -> dial_acceptable c L0 a -> dial_addr_check c st a = DAOk t q -> acceptable c L0 q a).
 Proof.
   split.
   - intros ls q b Hincl [H1 [H2 H3]]. repeat split; [exact H1 | | exact H3].
     exact (is_local_mono _ _ _ _ Hincl H2).
-  - intros st a t q Hw Hd. apply Hw.
+  - intros st a t q _ Hw Hd. apply Hw.
     destruct (dial_addr_ok_spec _ _ _ _ _ Hd) as [_ [_ [_ [Hl _]]]]. exact Hl.
 Qed.
 
@@ -1078,9 +1084,99 @@ Proof.
   assert (Hi : StInv k L0 (remembered_ok c) (fst (run c k (mkState [] L0 0 []) h))).
   { apply (run_inv c k L0 _ (fun _ => True)); [| |apply stinv_start|exact Hw].
     - intros ls q b _ Ha. exact (acceptable_remembered _ _ _ _ Ha).
-    - intros st b t q _ Hd. exact (proj2 (proj2 (proj2 (dial_addr_ok_spec _ _ _ _ _ Hd)))). }
+    - intros st b t q _ _ Hd. exact (proj2 (proj2 (proj2 (dial_addr_ok_spec _ _ _ _ _ Hd)))). }
   destruct Hi as [_ Hi]. destruct (Hi _ _ Hg) as [_ _ Ha]. rewrite Forall_forall in Ha.
   exact (Ha _ Hin).
+Qed.
+
+(* ... and none of them is one of the node's own listen addresses L0, under whatever peer id:
+   add_known_address strips the /p2p suffix before it looks the address up in the listen set, and
+   so does dial_address (TriedToDialSelf). No condition on what dial_address is handed. *)
+Definition not_own (c : cfg) (ls : list maddr) (a : maddr) : Prop :=
+  existsb (maddr_eqb (strip_p2p a)) (listen_set c ls) = false.
+Definition remembered_strict (c : cfg) (L0 : list maddr) (p : N) (a : maddr) : Prop :=
+  remembered_ok c p a /\ not_own c L0 a.
+Definition op_strict (c : cfg) (L0 : list maddr) : op -> Prop :=
+  op_wf (remembered_strict c L0) (fun _ => True).
+
+Lemma not_own_mono c l1 l2 a : incl l1 l2 -> not_own c l2 a -> not_own c l1 a.
+Proof.
+  unfold not_own. intros Hi H. exact (existsb_incl _ _ _ (listen_set_incl c _ _ Hi) H).
+Qed.
+
+Lemma is_local_not_own c ls a : is_local c ls a = false -> not_own c ls a.
+Proof.
+  unfold is_local, not_own.
+  destruct (existsb (maddr_eqb (strip_p2p a)) (listen_set c ls)); [discriminate|reflexivity].
+Qed.
+
+Lemma not_own_spec c ls a :
+  not_own c ls a <->
+  forall l, In l ls -> strip_p2p a <> l /\ strip_p2p a <> l ++ [P2p (local_peer c)].
+Proof.
+  unfold not_own. split.
+  - intros H l Hl.
+    assert (Hn : forall x, In x (listen_set c ls) -> strip_p2p a <> x).
+    { intros x Hx Heq. assert (existsb (maddr_eqb (strip_p2p a)) (listen_set c ls) = true).
+      { apply existsb_maddr. rewrite Heq. exact Hx. } congruence. }
+    split; apply Hn; unfold listen_set; apply in_flat_map; exists l; (split; [exact Hl|]); cbn; auto.
+  - intro H. destruct (existsb (maddr_eqb (strip_p2p a)) (listen_set c ls)) eqn:E; [|reflexivity].
+    apply existsb_maddr in E. unfold listen_set in E. apply in_flat_map in E.
+    destruct E as [l [Hl Hx]]. destruct (H l Hl) as [H1 H2].
+    cbn in Hx. destruct Hx as [Hx|[Hx|[]]]; congruence.
+Qed.
+
+Lemma run_strict c k L0 h p s a z :
+  Forall (op_strict c L0) h ->
+  get p (bk (fst (run c k (mkState [] L0 0 []) h))) = Some s -> In (a, z) s ->
+  remembered_strict c L0 p a.
+Proof.
+  intros Hw Hg Hin.
+  assert (Hi : StInv k L0 (remembered_strict c L0) (fst (run c k (mkState [] L0 0 []) h))).
+  { apply (run_inv c k L0 _ (fun _ => True)); [| |apply stinv_start|exact Hw].
+    - intros ls q b Hincl Ha. split; [exact (acceptable_remembered _ _ _ _ Ha)|].
+      destruct Ha as [_ [Hloc _]]. exact (not_own_mono _ _ _ _ Hincl (is_local_not_own _ _ _ Hloc)).
+    - intros st b t q Hincl _ Hd.
+      destruct (dial_addr_ok_spec _ _ _ _ _ Hd) as [_ [Hown [_ Hr]]]. split; [exact Hr|].
+      exact (not_own_mono _ _ _ _ Hincl (proj2 (own_listen_false _ _ _ Hown))). }
+  destruct Hi as [_ Hi]. destruct (Hi _ _ Hg) as [_ _ Ha]. rewrite Forall_forall in Ha.
+  exact (Ha _ Hin).
+Qed.
+
+(* TransportService::add_known_address: what is remembered is an offered address that names the
+   peer, or an offered address that ends in no peer id with the id appended *)
+Lemma ts_prepare_spec peer l : ts_prepare peer l = map (with_peer peer) l.
+Proof. reflexivity. Qed.
+
+Lemma service_offer c ls peer l a :
+  In a (accepted c ls peer (ts_prepare peer l)) ->
+  (exists a0, In a0 l /\
+     ((last a0 (Other 0) = P2p peer /\ a = a0) \/
+      ((forall q, last a0 (Other 0) <> P2p q) /\ a = a0 ++ [P2p peer]))) /\
+  supported c a = true /\ is_local c ls a = false /\ last a (Other 0) = P2p peer.
+Proof.
+  intro H. destruct (accepted_acceptable _ _ _ _ _ H) as [Hin [Hs [Hloc Hl]]].
+  split; [|repeat split; assumption].
+  unfold ts_prepare in Hin. apply in_map_iff in Hin. destruct Hin as [a0 [Ha Hin]].
+  exists a0. split; [exact Hin|].
+  destruct (last a0 (Other 0)) eqn:E;
+    try (right; split; [intros q; discriminate | symmetry; exact Ha]).
+  left. subst a. rewrite E in Hl. injection Hl as ->. split; reflexivity.
+Qed.
+
+(* Litep2p level: Litep2p::new registers the listen addresses ls of its transports and then adds
+   the configured known addresses; afterwards only add_known_address is used. Whatever is
+   remembered is supported, names its peer and is not local with respect to ls. *)
+Definition only_adds (h : list op) : Prop :=
+  Forall (fun o => match o with OAdd _ _ _ _ => True | _ => False end) h.
+
+Lemma litep2p_level c k ls h p s a z :
+  only_adds h ->
+  get p (bk (fst (run c k (mkState [] ls 0 []) h))) = Some s -> In (a, z) s ->
+  acceptable c ls p a /\ dialable c a p.
+Proof.
+  intros Ho. apply run_acceptable. unfold only_adds in Ho. rewrite Forall_forall in *.
+  intros o Hin. specialize (Ho o Hin). destruct o; try contradiction. exact I.
 Qed.
 
 (* add_known_address on addresses that are all known already changes nothing *)
